@@ -497,6 +497,8 @@ structure VariantOK (dws : List DeriveWhere) (v : RawVariant) (d : Data) : Prop 
   default : d.default = true → DerivesDefault dws
   skipInner : SkipOK dws d.skipInner
   fieldSkips : ∀ f ∈ d.fields, SkipOK dws f.skip
+  /-- a variant written without fields has none -/
+  fieldsEmpty : v.fields = [] → d.fields = []
 
 theorem Data.fromVariant_ok (c : Cfg) (dws : List DeriveWhere) (v : RawVariant) (d : Data)
     (h : Data.fromVariant c dws v = .ok d) : VariantOK dws v d := by
@@ -506,7 +508,7 @@ theorem Data.fromVariant_ok (c : Cfg) (dws : List DeriveWhere) (v : RawVariant) 
   simp only [Except.ok.injEq] at h2
   subst h2
   have hok := VariantAttr.fromAttrs_ok c dws _ v.attrs {} a ⟨by simp, by simp, trivial⟩ ha
-  refine ⟨rfl, rfl, ?_, hok.incomparable, hok.default, hok.skip, ?_⟩
+  refine ⟨rfl, rfl, ?_, hok.incomparable, hok.default, hok.skip, ?_, ?_⟩
   · intro hs
     simp only at hs
     simp only [Data.variantFields, hs, Except.ok.injEq] at hf
@@ -515,6 +517,13 @@ theorem Data.fromVariant_ok (c : Cfg) (dws : List DeriveWhere) (v : RawVariant) 
     split at hf
     · simp only [Except.ok.injEq] at hf; subst hf; simp
     · exact Field.fromFields_ok c dws _ _ _ hf
+  · intro hnil
+    unfold Data.variantFields at hf
+    split at hf
+    · simp only [Except.ok.injEq] at hf; subst hf; rfl
+    · rw [hnil] at hf
+      simp only [Field.fromFields, Except.ok.injEq] at hf
+      subst hf; rfl
 
 theorem Data.fromVariants_ok (c : Cfg) (dws : List DeriveWhere) (vs : List RawVariant) (ds : List Data)
     (h : Data.fromVariants c dws vs = .ok ds) :
@@ -612,6 +621,35 @@ structure InputOK (c : Cfg) (raw : RawItem) (inp : Input) : Prop where
   kindEnum : raw.kind = .enum_ ↔ inp.item.isEnum = true
   generics : inp.generics = raw.generics
   skips : ∀ d ∈ inp.item.variants, SkipOK inp.deriveWheres d.skipInner ∧ ∀ f ∈ d.fields, SkipOK inp.deriveWheres f.skip
+  /-- variants of enums are marked as variants, the data of a struct or union is not -/
+  isVariant : ∀ d ∈ inp.item.variants, d.isVariant = inp.item.isEnum
+  /-- `Discriminant::Unit` / `UnitRepr` are only chosen for enums all of whose variants are field-less -/
+  fieldless : ∀ disc id inc vs, inp.item = .enum_ disc id inc vs → (disc = .unit ∨ ∃ r, disc = .unitRepr r) →
+    ∀ d ∈ vs, d.fields = []
+
+/-- `Discriminant::parse` answers `Unit` / `UnitRepr` only when no variant has fields. -/
+theorem Discriminant.parse_unit (attrs : List RawAttr) (vs : List RawVariant) (disc : Discriminant)
+    (h : Discriminant.parse attrs vs = .ok disc) (hd : disc = .unit ∨ ∃ r, disc = .unitRepr r) :
+    ∀ v ∈ vs, v.fields = [] := by
+  have key : (vs.all (·.fields.isEmpty)) = true → ∀ v ∈ vs, v.fields = [] := by
+    intro hall v hv
+    have := List.all_eq_true.mp hall v hv
+    simpa using this
+  unfold Discriminant.parse at h
+  split at h
+  · cases h; rcases hd with hd | ⟨r, hd⟩ <;> cases hd
+  · obtain ⟨r, _, h2⟩ := bind_ok h
+    simp only at h2
+    split at h2
+    · simp only [Except.ok.injEq] at h2
+      split at h2
+      · rename_i hall; exact key hall
+      · subst h2; rcases hd with hd | ⟨r', hd⟩ <;> cases hd
+    · split at h2
+      · rename_i hall; exact key hall
+      · split at h2
+        · cases h2
+        · cases h2; rcases hd with hd | ⟨r', hd⟩ <;> cases hd
 
 theorem Input.buildItem_ok (c : Cfg) (raw : RawItem) (attr : ItemAttr) (hattr : ItemAttrOK raw.kind attr)
     (item : Item) (fi : Bool) (h : Input.buildItem c raw attr = .ok (item, fi)) :
@@ -621,7 +659,7 @@ theorem Input.buildItem_ok (c : Cfg) (raw : RawItem) (attr : ItemAttr) (hattr : 
   split at h
   · -- enum
     rename_i hk
-    obtain ⟨disc, _, h1⟩ := bind_ok h
+    obtain ⟨disc, hdisc, h1⟩ := bind_ok h
     obtain ⟨variants, hvs, h2⟩ := bind_ok h1
     obtain ⟨found, hscan, h3⟩ := bind_ok h2
     obtain ⟨fd, fi'⟩ := found
@@ -641,6 +679,7 @@ theorem Input.buildItem_ok (c : Cfg) (raw : RawItem) (attr : ItemAttr) (hattr : 
         obtain ⟨rfl, rfl⟩ := h3
         simp only [Bool.false_or] at hfd
         refine { dwsNonempty := hattr.nonempty, noDup := hattr.noDup, union := hattr.union,
+                 isVariant := ?_, fieldless := ?_,
                  wf := ?_, shapes := ?_, incomparable := ?_, incNotBoth := ?_, defaultAtMostOne := ?_,
                  defaultExists := ?_, defaultDerived := ?_, kindEnum := ?_, generics := rfl, skips := ?_ }
         · intro d hd
@@ -681,6 +720,21 @@ theorem Input.buildItem_ok (c : Cfg) (raw : RawItem) (attr : ItemAttr) (hattr : 
         · intro d hd
           obtain ⟨v, _, hok⟩ := hmemv d hd
           exact ⟨hok.skipInner, hok.fieldSkips⟩
+        · intro d hd
+          obtain ⟨v, _, hok⟩ := hmemv d hd
+          simpa [Item.isEnum] using hok.isVariant
+        · intro disc' id inc vs hit hdd d hd
+          simp only [Item.enum_.injEq] at hit
+          obtain ⟨rfl, _, _, rfl⟩ := hit
+          have hparse : Discriminant.parse raw.attrs raw.variants = .ok disc := by
+            split at hdisc
+            · simp only [pure, Except.pure, Except.ok.injEq] at hdisc
+              subst hdisc; rcases hdd with hdd | ⟨r, hdd⟩ <;> cases hdd
+            · exact hdisc
+          obtain ⟨k, hk1, hk2⟩ := List.getElem_of_mem hd
+          have hk' : k < raw.variants.length := by omega
+          have hraw := Discriminant.parse_unit _ _ _ hparse hdd raw.variants[k] (List.getElem_mem _)
+          exact hk2 ▸ (hvok k hk1 hk').fieldsEmpty hraw
   · -- struct / union
     rename_i hk
     split at h
@@ -690,6 +744,7 @@ theorem Input.buildItem_ok (c : Cfg) (raw : RawItem) (attr : ItemAttr) (hattr : 
       obtain ⟨rfl, rfl⟩ := h2
       obtain ⟨hshape, hisv, hinc, hunit, hdef, hski, hfsk⟩ := Data.fromStruct_ok _ _ _ _ _ _ hd
       refine { dwsNonempty := hattr.nonempty, noDup := hattr.noDup, union := hattr.union,
+               isVariant := ?_, fieldless := ?_,
                wf := ?_, shapes := ?_, incomparable := ?_, incNotBoth := ?_, defaultAtMostOne := ?_,
                defaultExists := ?_, defaultDerived := ?_, kindEnum := ?_, generics := rfl, skips := ?_ }
       · intro d' hd'
@@ -726,6 +781,11 @@ theorem Input.buildItem_ok (c : Cfg) (raw : RawItem) (attr : ItemAttr) (hattr : 
         simp only [Item.variants, List.mem_singleton] at hd'
         subst hd'
         exact ⟨hski ▸ hattr.skipOK, hfsk⟩
+      · intro d' hd'
+        simp only [Item.variants, List.mem_singleton] at hd'
+        subst hd'
+        simpa [Item.isEnum] using hisv
+      · intro disc' id inc vs hit; cases hit
     · cases h
 
 theorem Input.fromInput_ok (c : Cfg) (raw : RawItem) (inp : Input) (h : Input.fromInput c raw = .ok inp) :
